@@ -537,7 +537,7 @@ pub const INT_ARITH_FNS: &[&str] = &[
     "add", "sub", "mul", "div", "rem", "neg", "shl", "shr", "add_assign", "sub_assign", "mul_assign", "div_assign", "rem_assign",
     "shl_assign", "shr_assign", "abs", "dot", "dot_into_vec", "cross", "perp", "perp_dot", "rotate", "length_squared", "distance_squared", "element_sum",
     "element_product", "div_euclid", "rem_euclid", "manhattan_distance", "sum", "product", "sum_n", "product_n",
-    "wrapping_div", "saturating_div", "wrapping_rem", "checked_manhattan_distance",
+    "wrapping_div", "saturating_div", "wrapping_rem",
 ];
 
 fn is_int_arith_panic(op: &OpDesc, p: &util::Panic) -> bool {
